@@ -33,7 +33,39 @@ func EncodeRawXMLElement(v interface{}) (*RawXMLValue, error) {
 
 // UnmarshalXML implements xml.Unmarshaler.
 func (val *RawXMLValue) UnmarshalXML(d *xml.Decoder, start xml.StartElement) error {
-	val.tok = start
+	return val.unmarshalXML(d, start, false)
+}
+
+// captureStartElement prepares a start element for being replayed later.
+// Element and attribute names are captured with their namespace resolved, so
+// namespace declarations are dropped: they would conflict with the ones
+// encoding/xml generates by itself when the tokens are encoded again. The
+// encoder never undeclares the default namespace however, so xmlns="" is made
+// explicit on elements without a namespace nested in elements that have one.
+func captureStartElement(start xml.StartElement, inNamespace bool) xml.StartElement {
+	undeclare := start.Name.Space == "" && inNamespace
+	attr := make([]xml.Attr, 0, len(start.Attr))
+	for _, a := range start.Attr {
+		if a.Name.Space == "xmlns" {
+			continue
+		}
+		if a.Name.Space == "" && a.Name.Local == "xmlns" {
+			if a.Value == "" && start.Name.Space == "" {
+				undeclare = true
+			}
+			continue
+		}
+		attr = append(attr, a)
+	}
+	if undeclare {
+		attr = append(attr, xml.Attr{Name: xml.Name{Local: "xmlns"}})
+	}
+	start.Attr = attr
+	return start
+}
+
+func (val *RawXMLValue) unmarshalXML(d *xml.Decoder, start xml.StartElement, inNamespace bool) error {
+	val.tok = captureStartElement(start, inNamespace)
 	val.children = nil
 	val.out = nil
 
@@ -45,7 +77,7 @@ func (val *RawXMLValue) UnmarshalXML(d *xml.Decoder, start xml.StartElement) err
 		switch tok := tok.(type) {
 		case xml.StartElement:
 			child := RawXMLValue{}
-			if err := child.UnmarshalXML(d, tok); err != nil {
+			if err := child.unmarshalXML(d, tok, inNamespace || start.Name.Space != ""); err != nil {
 				return err
 			}
 			val.children = append(val.children, child)
